@@ -5660,7 +5660,7 @@ class HCI_LE_Read_ISO_TX_Sync_ReturnParameters(
 ):
     packet_sequence_number: int = field(metadata=metadata(2))
     tx_time_stamp: int = field(metadata=metadata(4))
-    time_offset: int = field(metadata=metadata(4))
+    time_offset: int = field(metadata=metadata(3))
 
 
 @HCI_SyncCommand.sync_command(HCI_LE_Read_ISO_TX_Sync_ReturnParameters)
